@@ -5,31 +5,31 @@ package main
 const corrInterp = "correspondence render/write_node (Model/Interp.v) vs dyntpl.go, ctx.go, cloop.go, rloop.go"
 
 var profiles = map[string]*Profile{
-	"C01": {Name: "items", MaxDepth: 1, MaxItems: 10, PfxSfx: true, KeepFmt: true, Comments: true,
+	"C01": {Name: "items", MaxDepth: 1, MaxItems: 10, PfxSfx: true, KeepFmt: true, Comments: true, LongVals: 6,
 		W: map[string]int{"text": 5, "print": 7, "comment": 2, "marker": 1}},
 	"C02": {Name: "conditions", MaxDepth: 3, MaxItems: 5, CondHist: true,
-		W: map[string]int{"text": 1, "marker": 1, "print": 1, "if": 8, "ternary": 2, "switch": 4, "ifok": 2, "ctx": 2, "dyncond": 2, "ctxcmp": 2}},
+		W: map[string]int{"text": 1, "marker": 1, "print": 1, "if": 8, "ternary": 2, "switch": 4, "ifok": 2, "ctx": 2, "dyncond": 2, "ctxcmp": 2, "cloop": 2}},
 	"C03": {Name: "loops", MaxDepth: 3, MaxItems: 4,
 		W: map[string]int{"text": 3, "marker": 2, "print": 4, "cloop": 5, "rloop": 5, "if": 1, "pastprint": 2}},
-	"C11": {Name: "letters-and-chains", MaxDepth: 1, MaxItems: 5, Letters: true, Mods: true, PfxSfx: true,
+	"C11": {Name: "letters-and-chains", MaxDepth: 1, MaxItems: 5, Letters: true, Mods: true, PfxSfx: true, LongVals: 8,
 		W: map[string]int{"text": 1, "print": 9}},
 	"C14": {Name: "loop-control", MaxDepth: 4, MaxItems: 3, BreakN: true, Includes: true,
 		W: map[string]int{"marker": 3, "print": 1, "cloop": 5, "rloop": 4, "if": 2, "break": 3, "lazybreak": 3, "continue": 2, "ifok": 2, "include": 2}},
-	"C15": {Name: "variables", MaxDepth: 2, MaxItems: 8, Mods: true, OKFlags: true,
+	"C15": {Name: "variables", MaxDepth: 2, MaxItems: 8, Mods: true, OKFlags: true, LongVals: 8,
 		W: map[string]int{"marker": 1, "print": 4, "ctx": 5, "counter": 4, "if": 2, "cloop": 3, "rloop": 1, "dynprint": 6, "dyncond": 4, "ifok": 2, "pastprint": 2, "ctxcmp": 1}},
 	"C16": {Name: "include-exit", MaxDepth: 3, MaxItems: 5, Includes: true, Regions: true,
 		W: map[string]int{"marker": 3, "print": 2, "include": 5, "exit": 2, "if": 2, "switch": 1, "cloop": 2, "rloop": 2, "region": 1, "ctx": 1, "ifok": 2}},
-	"C17": {Name: "all-constructs-with-faults", MaxDepth: 3, MaxItems: 4, Includes: true, Regions: true, PfxSfx: true, Letters: true, Faults: true, BreakN: true, Mods: true, Effects: true,
+	"C17": {Name: "all-constructs-with-faults", MaxDepth: 3, MaxItems: 4, Includes: true, Regions: true, PfxSfx: true, Letters: true, Faults: true, BreakN: true, Mods: true, Effects: true, LongVals: 4,
 		W: map[string]int{"text": 2, "marker": 2, "print": 4, "if": 2, "switch": 1, "cloop": 2, "rloop": 2, "include": 2, "region": 1, "exit": 1, "break": 1, "continue": 1, "ctx": 1, "counter": 1, "ifok": 2, "lazybreak": 1}},
-	"REGION": {Name: "regions", MaxDepth: 3, MaxItems: 5, Regions: true, Letters: true, PfxSfx: true, Mods: true, Includes: true,
+	"REGION": {Name: "regions", MaxDepth: 3, MaxItems: 5, Regions: true, Letters: true, PfxSfx: true, Mods: true, Includes: true, LongVals: 10,
 		W: map[string]int{"text": 4, "print": 6, "region": 5, "if": 1, "cloop": 1, "include": 1}},
-	"ALL": {Name: "everything", MaxDepth: 3, MaxItems: 5, Includes: true, Regions: true, PfxSfx: true, Letters: true, Mods: true, BreakN: true, KeepFmt: true, Comments: true,
+	"ALL": {Name: "everything", MaxDepth: 3, MaxItems: 5, Includes: true, Regions: true, PfxSfx: true, Letters: true, Mods: true, BreakN: true, KeepFmt: true, Comments: true, LongVals: 6,
 		W: map[string]int{"text": 2, "marker": 2, "comment": 1, "print": 5, "if": 3, "ternary": 1, "switch": 2, "cloop": 3, "rloop": 3, "include": 2, "region": 2, "exit": 1,
 			"break": 2, "lazybreak": 2, "continue": 2, "ctx": 2, "counter": 2, "dynprint": 2, "dyncond": 1, "ifok": 1, "pastprint": 1}},
 }
 
 func regionProfile(kind string) *Profile {
-	return &Profile{Name: "region-" + kind, MaxDepth: 3, MaxItems: 5, Regions: true, RegionKind: kind, Letters: true, PfxSfx: true, Mods: true, Includes: true,
+	return &Profile{Name: "region-" + kind, MaxDepth: 3, MaxItems: 5, Regions: true, RegionKind: kind, Letters: true, PfxSfx: true, Mods: true, Includes: true, LongVals: 15,
 		W: map[string]int{"text": 4, "print": 6, "region": 6, "if": 1, "cloop": 1, "rloop": 1, "include": 1}}
 }
 
